@@ -15,6 +15,7 @@ import (
 
 type hand struct {
 	dialects []string // "" = both
+	pair     string   // class of the schema-name pair (pairs), "" = marker / other
 	build    func(d string) ([]schema.Change, *universe, error)
 }
 
@@ -42,10 +43,71 @@ func sdiff(d string, a, b *schema.Schema) ([]schema.Change, error) {
 // two returns a builder of a two-schema change set: changes of the marker schema (cur -> des flags)
 // followed by changes of the other schema.
 func two(mCur, mDes []string, mCurEmpty, mDesEmpty bool, oCur, oDes []string, oCurEmpty, oDesEmpty bool) func(string) ([]schema.Change, *universe, error) {
+	return twoNamed(marker, other, mCur, mDes, mCurEmpty, mDesEmpty, oCur, oDes, oCurEmpty, oDesEmpty)
+}
+
+// pairs are pairs of DIFFERENT schema names that a sloppy comparison takes for one: they differ only in
+// letter case (ASCII, Latin-1, the special case-folding orbits k/K/KELVIN SIGN and s/S/LONG S), in
+// Unicode normal form, by a suffix, in the last character, or by a trailing blank. Quoted identifiers
+// are case-sensitive in PostgreSQL, and in MySQL on case-sensitive file systems (the default on
+// Linux); a change set over the two schemas of a pair spans two schemas like any other.
+var pairs = map[string][2]string{
+	"case.upper":   {marker, "ZZMARKERZZ"},
+	"case.title":   {marker, "Zzmarkerzz"},
+	"case.unicode": {marker + "_\u00e9", marker + "_\u00c9"},
+	"case.kelvin":  {marker + "_k", marker + "_\u212a"},
+	"case.long-s":  {marker + "_s", marker + "_\u017f"},
+	"norm.nfc-nfd": {marker + "_\u00e9", marker + "_e\u0301"},
+	"suffix":       {marker, marker + "2"},
+	"last-char":    {marker, "zzmarkerzy"},
+	"blank":        {marker, marker + " "},
+}
+
+func pairNames() []string {
+	var out []string
+	for n := range pairs {
+		out = append(out, n)
+	}
+	sort.Strings(out)
+	return out
+}
+
+// pairShapes: both schemas of a pair carry table-level changes (so that the set spans two schemas by
+// its tables alone).
+var pairShapes = map[string]func(n1, n2 string) func(string) ([]schema.Change, *universe, error){
+	"add-add": func(n1, n2 string) func(string) ([]schema.Change, *universe, error) {
+		return twoNamed(n1, n2, nil, richFlags, true, false, nil, midFlags, true, false)
+	},
+	"drop-drop": func(n1, n2 string) func(string) ([]schema.Change, *universe, error) {
+		return twoNamed(n1, n2, richFlags, nil, false, true, midFlags, nil, false, true)
+	},
+	"mod-mod": func(n1, n2 string) func(string) ([]schema.Change, *universe, error) {
+		return twoNamed(n1, n2, midFlags, richFlags, false, false, []string{"idx"}, []string{"idx", "idx.desc", "col", "tcmt"}, false, false)
+	},
+	"add-mod": func(n1, n2 string) func(string) ([]schema.Change, *universe, error) {
+		return twoNamed(n1, n2, nil, []string{"idx"}, true, false, []string{"idx"}, []string{"col"}, false, false)
+	},
+	"mod-drop": func(n1, n2 string) func(string) ([]schema.Change, *universe, error) {
+		return twoNamed(n1, n2, []string{"idx"}, []string{"col"}, false, false, []string{"idx"}, nil, false, true)
+	},
+	"one-table-each": func(n1, n2 string) func(string) ([]schema.Change, *universe, error) {
+		return twoNamed(n1, n2, nil, nil, true, false, nil, nil, true, false)
+	},
+}
+
+func init() {
+	for pn, p := range pairs {
+		for sn, sh := range pairShapes {
+			hands["pair."+pn+"."+sn] = hand{build: sh(p[0], p[1]), pair: pn}
+		}
+	}
+}
+
+func twoNamed(n1, n2 string, mCur, mDes []string, mCurEmpty, mDesEmpty bool, oCur, oDes []string, oCurEmpty, oDesEmpty bool) func(string) ([]schema.Change, *universe, error) {
 	return func(d string) ([]schema.Change, *universe, error) {
-		u := newUniverse(marker)
-		a, b := ownSchema(d, marker, "", mkFlags(mCur), mCurEmpty), ownSchema(d, marker, "", mkFlags(mDes), mDesEmpty)
-		oa, ob := ownSchema(d, other, "_o", mkFlags(oCur), oCurEmpty), ownSchema(d, other, "_o", mkFlags(oDes), oDesEmpty)
+		u := newUniverse(n1)
+		a, b := ownSchema(d, n1, "", mkFlags(mCur), mCurEmpty), ownSchema(d, n1, "", mkFlags(mDes), mDesEmpty)
+		oa, ob := ownSchema(d, n2, "_o", mkFlags(oCur), oCurEmpty), ownSchema(d, n2, "_o", mkFlags(oDes), oDesEmpty)
 		for _, s := range []*schema.Schema{a, b, oa, ob} {
 			u.add(s)
 		}
